@@ -899,6 +899,7 @@ func (s *sess) runPG(p *prog) {
 			k.section(func(base *state) *state {
 				o := s.pgStmt(p, i, st)
 				k.c.Count("pg_use_inside_block/"+errClass(o.Err)+"/status-"+string(rune(s.pg.c.TxStatus())), 1)
+				s.pg.prep = map[string]string{} // an accepted USE drops the session's prepared statements
 				return k.expect(base, t, fe+"/use-inside-block-commits", "after USE inside the block of "+t.name())
 			})
 			hazard = "use"
@@ -926,22 +927,36 @@ func (s *sess) runPG(p *prog) {
 		t.Obs = append(t.Obs, o)
 		if o.Err != "" && !o.Cont {
 			t.Aborted = errClass(o.Err)
+			switch t.Aborted {
+			case "dup", "notnull", "syntax", "nocol", "copy-row-error":
+			default:
+				// an error outside the model's vocabulary (say, from the protocol layer): it need not have aborted the
+				// block, so the block is simply rolled back and only its invisibility is judged
+				hazard = "unexpected"
+			}
 			break
 		}
 	}
 	end := p.End
 	if t.Aborted != "" || hazard != "" {
-		if hazard == "" {
+		switch hazard {
+		case "":
 			hazard = "error"
-		} else {
+		case "use":
 			t.Aborted = hazard
 		}
 		t.Outcome = "aborted-by-" + t.Aborted
 		end = p.End2
-		if hazard == "use" && end == endCommit {
+		if hazard != "error" && end == endCommit {
 			end = endRollback // what COMMIT should do after an accepted USE is not specified: only ends that must leave nothing are used
 		}
-		k.followUps(t, hazard, func(st *stmt) (string, string) {
+		after := k.followUps
+		if hazard == "unexpected" {
+			k.c.Count("unexpected_error/pgwire/"+t.Aborted, 1)
+			t.Skip = true
+			after = func(*txRec, string, func(*stmt) (string, string)) {}
+		}
+		after(t, hazard, func(st *stmt) (string, string) {
 			o := s.pgStmt(p, 900, st)
 			if s.pg == nil {
 				return o.Err, ""
@@ -954,9 +969,11 @@ func (s *sess) runPG(p *prog) {
 			case endCommit:
 				r, _ := s.pgSend(s.pgProto(p, 101), "COMMIT", "COMMIT", nil)
 				k.c.Count("after_failure/pgwire/commit/"+errClass(r.Err)+"/"+r.Tag, 1)
+				s.pgCleanup()
 			case endRollback:
 				r, _ := s.pgSend(s.pgProto(p, 101), "ROLLBACK", "ROLLBACK", nil)
 				k.c.Count("after_failure/pgwire/rollback/"+errClass(r.Err), 1)
+				s.pgCleanup()
 			case endDrop:
 				s.pg.drop()
 				s.pg = nil
@@ -979,6 +996,7 @@ func (s *sess) runPG(p *prog) {
 				if r.Broken {
 					s.pg = nil
 				}
+				s.pgCleanup()
 				return k.expect(base, t, fe+"/failed-commit-tx-visible", "after the failed COMMIT of "+t.name()+" ("+r.Err+")")
 			}
 			return k.committed(t, base)
@@ -986,6 +1004,7 @@ func (s *sess) runPG(p *prog) {
 	case endRollback:
 		k.section(func(base *state) *state {
 			r, _ := s.pgSend(s.pgProto(p, 101), "ROLLBACK", "ROLLBACK", nil)
+			s.pgCleanup()
 			t.Outcome = "rolled-back"
 			t.Reader = true
 			if r.Err != "" {
@@ -1163,10 +1182,19 @@ func (k *cas) followUps(t *txRec, hazard string, send func(st *stmt) (errText, i
 			}
 			next := k.expect(base, t, sig,
 				fmt.Sprintf("%s: after %s inside its block the client sent\n    %s\nwithout ending the block", t.name(), hazard, strings.Join(log, "\n    ")))
-			if errText == "" && !st.K.isDML() && !st.K.isQuery() && !strings.Contains(path, kindName[st.K]) && strings.Count(path, "+") < 2 {
+			if hazard == "error" && errText == "" && !st.K.isDML() && !st.K.isQuery() && !strings.Contains(path, kindName[st.K]) && strings.Count(path, "+") < 2 {
 				path += "+" + kindName[st.K] // an accepted SAVEPOINT / ROLLBACK TO / RELEASE / BEGIN names the route to a later leak
 			}
 			return next
 		})
+	}
+}
+
+// pgCleanup: when the statement meant to end the block was refused before it reached the engine (protocol-level
+// error) the block is still open; a plain ROLLBACK ends it, so that the next program does not run inside it.
+func (s *sess) pgCleanup() {
+	if s.pg != nil && s.pg.c.TxStatus() == 'T' {
+		s.k.c.Count("pg_block_still_open_after_end_statement", 1)
+		s.pg.simple("ROLLBACK")
 	}
 }
